@@ -207,6 +207,13 @@ def gen_chain_scenarios(n_random, rng, sid0):
     add(trig_q=5, trig_mention=0, comps=[(1, 0, None), (0, 0, None)], loops=[None, None], acts=[A[0], A[1]])
     add(trig_q=6, trig_mention=1, comps=[(2, 0, None), (1, 0, None), (None, 1, None)], loops=[None] * 3,
         acts=[A[0], A[1], A[2]], nparams=14)
+    # float-noise near-ties: priority 0.9 (0.81) with k unmentioned = no priority with k+1 (k+2)
+    add(trig_q=2, trig_mention=2, comps=[(None, 3, "0.9"), (2, 0, "0.9"), (3, 0, "0.5")], loops=[None] * 3,
+        acts=[A[0], A[1], A[2]], nparams=19)
+    add(trig_q=0, trig_mention=1, comps=[(None, 3, "0.81"), (1, 0, None)], loops=[None, None], acts=[A[0], A[1]],
+        nparams=12)
+    add(trig_q=0, trig_mention=0, comps=[(None, 1, "0.9"), (0, 0, None), (None, 0, None)], loops=[None] * 3,
+        acts=[A[0], A[1], A[2]])
     for _ in range(n_random):
         wide = rng.random() < 0.35
         q = rng.choice([4, 5, 6]) if wide and rng.random() < 0.7 else rng.choice([0, 0, 1, 2])
@@ -215,7 +222,7 @@ def gen_chain_scenarios(n_random, rng, sid0):
         n = rng.choice([2, 2, 3, 3, 4])
         comps = []
         for i in range(n):
-            prio = rng.choice([None, None, "0.5", "0.9", "0.8", "1.0"])
+            prio = rng.choice([None, None, "0.5", "0.9", "0.9", "0.81", "0.8", "1.0"])
             if rng.random() < 0.6:
                 comps.append((rng.randint(0, min(1 + q, 3)), 0, prio))
             else:
@@ -651,11 +658,46 @@ def ideal_vector(f, factor, sc=None):
     return [p * factor ** (nparams_of(sc) - f["mention"])] + [Fraction(1)] * f["via"]
 
 
+def ideal_provenance(f, sc=None):
+    """(priority, number of unmentioned parameters) of every link of the documented chain.  Two links
+    with the same provenance are computed by the same float operations (0.9 ** k, then *= priority)
+    and are bit-identical; two links with different provenance can denote the same rational
+    (priority 0.9 and k unmentioned = priority 1.0 and k+1 unmentioned) while their floats differ in
+    the last ulps."""
+    p = Fraction(f["priority"]) if f["priority"] is not None else Fraction(1)
+    if f.get("ff") is not None:
+        trig = sc["trigger"]
+        n_ff = 3 + 2 * trig["q"]
+        return [(Fraction(1), nparams_of(sc) - trig["mention"]), (p, n_ff - f["ff"])] + [(Fraction(1), 0)] * f["via"]
+    return [(p, nparams_of(sc) - f["mention"])] + [(Fraction(1), 0)] * f["via"]
+
+
 def padded_key(v, n, pad=Fraction(1)):
     return list(v) + [pad] * (n - len(v))
 
 
-def oracle(sc, run, factor, use_vectors):
+NOISE = Fraction(1, 10 ** 12)
+
+
+def near(x, y):
+    return x == y or abs(x - y) <= NOISE * max(abs(x), abs(y))
+
+
+def possibly_ge(a, pa, b, pb):
+    """Can key a be ranked at or above key b under SOME resolution of float-noise near-ties?
+    A near-tie (exact values equal or within 1e-12 relative) between links of DIFFERENT provenance
+    may fall either way in floating point; links of the same provenance are bit-identical (a true
+    tie at that position); any real difference decides strictly."""
+    for x, px, y, py in zip(a, pa, b, pb):
+        if near(x, y):
+            if px == py:
+                continue
+            return True
+        return x > y
+    return True
+
+
+def oracle(sc, run, factor, use_vectors, prov=None, obs=None):
     """Violations of the property text in one end-to-end run. use_vectors: flow name -> score vector."""
     v = []
     post, pre, final = run["post"], run["pre"], run["final"]
@@ -740,11 +782,22 @@ def oracle(sc, run, factor, use_vectors):
         a = assignment[lname]
         # winner among the most specific
         n = max(len(use_vectors[f["name"]]) for f in fls)
-        best = max(padded_key(use_vectors[f["name"]], n) for f in fls)
-        if not any(padded_key(use_vectors[f["name"]], n) == best for f in proceeding):
+        keys = {f["name"]: padded_key(use_vectors[f["name"]], n) for f in fls}
+        if prov is None:   # no provenance known: every value is its own provenance (exact comparison)
+            provs = {k: list(kv) for k, kv in keys.items()}
+        else:
+            provs = {f["name"]: padded_key(prov[f["name"]], n, pad=(Fraction(1), 0)) for f in fls}
+        best = max(keys.values())
+        admissible = [f["name"] for f in fls
+                      if all(possibly_ge(keys[f["name"]], provs[f["name"]], keys[g["name"]], provs[g["name"]])
+                             for g in fls)]
+        if not any(f["name"] in admissible for f in proceeding):
             v.append(("winner-not-most-specific",
-                      "loop %s: proceeding %s, none has the maximal score vector %s" % (
-                          lname, [f["name"] for f in proceeding], [float(x) for x in best])))
+                      "loop %s: proceeding %s, none has the maximal score vector %s (admissible winners: %s)" % (
+                          lname, [f["name"] for f in proceeding], [float(x) for x in best], admissible)))
+        elif obs is not None and not any(keys[f["name"]] == best for f in proceeding):
+            obs.append({"loop": lname, "proceeding": [f["name"] for f in proceeding], "admissible": admissible,
+                        "exact_keys": {k: [str(x) for x in kv] for k, kv in keys.items()}})
         # follow-up: flows that await the action finish once it finished
         if all(f["kind"] == "await" for f in proceeding):
             dead = [f["name"] for f in proceeding if st(final, f["name"]) == "STOPPED"]
@@ -903,6 +956,8 @@ def run(tier, seed, replay=None):
     n_e2e = 0
     ideal_bad = []
     rounding_ok = rounding_total = 0
+    noise_obs_n = 0
+    noise_obs_examples = []
     rounding_bad_examples = []
     truncated = 0
     tie_pick_outcomes = {}
@@ -955,12 +1010,21 @@ def run(tier, seed, replay=None):
                                 rounding_bad_examples.append({"scenario": sid, "flows": [x, y], "float": [nat[x][pos], nat[y][pos]],
                                                               "exact": [str(ideal[x][pos]), str(ideal[y][pos])]})
                 rounding_ok += pairs_ok and case_ok
+                prov = None
                 if not inverted:
-                    # the oracle speaks about the documented chain: unmentioned parameters x priority
-                    # (rounding that merely splits an exact tie keeps the winner among the most specific)
+                    # the oracle speaks about the documented chain: unmentioned parameters x priority;
+                    # links that are mathematically equal but computed differently (float noise) may
+                    # be ordered either way, see possibly_ge
                     use = ideal
-            for sig, what in oracle(sc, run_, factor, use):
+                    prov = {f["name"]: ideal_provenance(f, sc) for f in sc["flows"]}
+            obs = []
+            for sig, what in oracle(sc, run_, factor, use, prov, obs):
                 viol.append((sc, run_, sig, what))
+            if obs:
+                noise_obs_n += 1
+                if len(noise_obs_examples) < 2:
+                    noise_obs_examples.append({"scenario": sc, "picks": run_["picks"], "observed": obs,
+                                               "float_scores": natural_vectors(sc, run_)})
             winners_seen.add(json.dumps(sorted((e["type"], json.dumps(e["args"], sort_keys=True)) for e in run_["out"])))
         if sc["inject"] is None:
             k = len(winners_seen)
@@ -1007,10 +1071,15 @@ def run(tier, seed, replay=None):
         "oracle_violations": len(viol),
         "double_rounding": {"cases_checked": rounding_total, "float_order_equals_exact_order": rounding_ok,
                             "examples_where_not": rounding_bad_examples},
+        "observations": {"float_noise_near_tie_decided_winner": {
+            "runs": noise_obs_n,
+            "what": "two score links are the same rational computed differently (e.g. priority 0.9 x 0.9^k and 0.9^(k+1)); their floats differ in the last ulps and that noise, not specificity, ordered the heads; the winner is maximal under one resolution of the near-tie, which the property admits (arbitrary among exact ties)",
+            "examples": noise_obs_examples}},
         "impl_wall_s": round(t_impl, 1),
     })
     out.assumptions += [
-        "function level: the candidate record (uid, flow, loop, scores, event, action uid, catch labels) is everything _resolve_action_conflicts reads; effects of _abort_flow on later heads of the same call (a losing parent aborting a child that is also a candidate) are not modelled",
+        "function level: the candidate record (uid, flow, loop, scores, event, action uid, catch labels) is everything _resolve_action_conflicts reads; effects of _abort_flow on later heads of the same call (a losing parent aborting a child that is also a candidate) are not modelled: the code skips such a dead head (`if not is_active_flow(competing_flow_state): continue`), the model assumes every candidate's flow is still active at its turn",
+        "end-to-end oracle: 'most specific' = maximal documented chain under some resolution of float-noise near-ties (links that are the same rational but computed from different priority/exponent pairs may be ordered either way; links of equal provenance are bit-identical; any real difference is strict)",
         "scores: each float is taken as the rational it denotes (exact), so sorting/equality agree with the model by construction; relating scores to 'unmentioned parameters x priority' assumes double rounding does not reorder them - checked per case, see coverage.double_rounding",
         "random.choice(seq) = seq[pick k (len seq)] with an arbitrary pick < len; the harness enumerates the whole tree of outcomes (up to %d runs per scenario)" % max_runs,
         "Python == on argument dicts is an arbitrary oracle in the theorems; the correspondence uses the str/int/bool/float fragment of V2/ConflictRun.v",
